@@ -284,3 +284,159 @@ Proof.
   - split; [discriminate|]. eexists. eexists. split; [vm_compute; reflexivity|]. split; [vm_compute; reflexivity|].
     repeat split; reflexivity.
 Qed.
+
+(* ---------- subchart directories / archives that are skipped, and the "error unpacking" paths ---------- *)
+Definition hidden (n : string) : bool := first_char_in n [underscore; dot].
+
+(* a file handed to a subchart whose name starts with '_' or '.' *)
+Definition hidden_file (f : file) : bool :=
+  match sub_name f with Some n => hidden n | None => false end.
+
+Lemma subs_loop_skip F l :
+  (forall n, hidden n = true -> F n = inr None) ->
+  subs_loop F l = subs_loop F (filter (fun n => negb (hidden n)) l).
+Proof.
+  intros H. induction l as [|n l IH]; [reflexivity|]. cbn [subs_loop filter].
+  destruct (hidden n) eqn:E; cbn [negb].
+  - now rewrite (H n E).
+  - cbn [subs_loop]. destruct (F n) as [e|[sc|]]; auto. now rewrite IH.
+Qed.
+
+Lemma sorted_filter (p : string -> bool) l :
+  SortedBy str_leb l -> SortedBy str_leb (filter p l).
+Proof.
+  unfold SortedBy. induction 1 as [|a l Hs IH Ha]; simpl; [constructor|].
+  destruct (p a); auto. constructor; auto.
+  apply Forall_forall. intros x Hx. apply filter_In in Hx as [Hx _]. rewrite Forall_forall in Ha. now apply Ha.
+Qed.
+
+Lemma sorted_names_filter (p : string -> bool) l1 l2 :
+  (forall n, In n l2 <-> In n l1 /\ p n = true) ->
+  sort_strs (dedup l2) = filter p (sort_strs (dedup l1)).
+Proof.
+  intros H. rewrite !sort_strs_ssort.
+  apply sorted_antisym_unique with (leb := str_leb).
+  - apply str_leb_total.
+  - intros a b _ _. apply str_leb_antisym.
+  - apply ssort_sorted; [apply str_leb_total|apply str_leb_trans].
+  - apply sorted_filter. apply ssort_sorted; [apply str_leb_total|apply str_leb_trans].
+  - apply NoDup_Permutation.
+    + eapply Permutation_NoDup; [apply Permutation_sym, ssort_perm|apply dedup_nodup].
+    + apply NoDup_filter. eapply Permutation_NoDup; [apply Permutation_sym, ssort_perm|apply dedup_nodup].
+    + intros x. rewrite filter_In, !ssort_In, !dedup_in. apply H.
+Qed.
+
+Lemma sort_strs_in x l : In x (sort_strs l) <-> In x l.
+Proof. rewrite sort_strs_ssort. apply ssort_In. Qed.
+
+Section Skipped.
+  Variable md_merge : meta -> string -> option meta.
+  Variable lock_dec : string -> option (option lockv).
+  Variable parse_values : string -> option val.
+  Variable untar : string -> tstream.
+  Variable sanitize : meta -> meta.
+  Variable is_semver : string -> bool.
+  Variable rest_valid : meta -> bool.
+  Variable maxt maxf : Z.
+  Notation lloop := (load_loop md_merge lock_dec parse_values).
+  Notation LFILES := (load_files md_merge lock_dec parse_values untar sanitize is_semver rest_valid maxt maxf).
+
+  Lemma group_filter_hidden k l :
+    group k (filter (fun f => negb (hidden_file f)) l) =
+    match k with
+    | Some n => if hidden n then [] else group k l
+    | None => group k l
+    end.
+  Proof.
+    unfold group. induction l as [|f l IH]; [destruct k as [n|]; [destruct (hidden n)|]; reflexivity|].
+    cbn [filter]. destruct (hidden_file f) eqn:Ehf; cbn [negb].
+    - (* the file is dropped *)
+      rewrite IH. unfold hidden_file in Ehf. destruct (sub_name f) as [m|] eqn:Em; [|discriminate].
+      destruct k as [n|]; cbn [key_eqb]; [|reflexivity].
+      destruct (hidden n) eqn:En; [reflexivity|].
+      destruct (String.eqb m n) eqn:E; [|reflexivity]. apply String.eqb_eq in E. subst. congruence.
+    - (* the file stays *)
+      cbn [filter]. rewrite IH. unfold hidden_file in Ehf.
+      destruct k as [n|]; [|reflexivity].
+      destruct (hidden n) eqn:En; [|reflexivity].
+      destruct (sub_name f) as [m|] eqn:Em; cbn [key_eqb]; [|reflexivity].
+      destruct (String.eqb m n) eqn:E; [|reflexivity]. apply String.eqb_eq in E. subst. congruence.
+  Qed.
+
+  (* files below charts/_x or charts/.x (directories or archives) have no influence on the result *)
+  Theorem hidden_subcharts_ignored fuel l :
+    LFILES fuel l = match LFILES fuel (filter (fun f => negb (hidden_file f)) l) with
+                    | inl e => inl e
+                    | inr c => inr (set_raw c l)
+                    end.
+  Proof.
+    set (l' := filter (fun f => negb (hidden_file f)) l).
+    destruct fuel as [|fuel]; [reflexivity|]. cbn [load_files].
+    rewrite (load_meta_tops md_merge l), (load_meta_tops md_merge l'). unfold tops.
+    assert (group None l' = group None l) as HN by (unfold l'; now rewrite (group_filter_hidden None l)).
+    rewrite HN.
+    destruct (load_meta md_merge None (group None l)) as [e|om]; [reflexivity|].
+    destruct (lloop_split md_merge lock_dec parse_values l (mkLS om None None None [] [] [])) as [H1 _].
+    destruct (lloop_split md_merge lock_dec parse_values l' (mkLS om None None None [] [] [])) as [H2 _].
+    rewrite H1, H2. unfold tops. rewrite HN.
+    destruct (lloop (with_sub (mkLS om None None None [] [] []) []) (group None l)) as [e|st]; [reflexivity|].
+    cbn [ls_sub app with_sub ls_meta ls_lock ls_values ls_schema ls_templates ls_files].
+    destruct (ls_meta st) as [m0|]; [|reflexivity].
+    destruct (validate sanitize is_semver rest_valid m0) as [m|]; [|reflexivity].
+    assert (sort_strs (dedup (map fst (subs_of l'))) =
+            filter (fun n => negb (hidden n)) (sort_strs (dedup (map fst (subs_of l))))) as ->.
+    { apply sorted_names_filter. intros n. rewrite !in_subs_names. unfold l'. rewrite (group_filter_hidden (Some n) l).
+      destruct (hidden n); cbn [negb]; split; intros H; try tauto; try (destruct H as [_ H]; discriminate). }
+    match goal with |- match subs_loop ?F1 ?names with _ => _ end = match match subs_loop ?F2 (filter ?p ?names) with _ => _ end with _ => _ end =>
+      assert (subs_loop F1 names = subs_loop F2 (filter p names)) as Hsl end.
+    { rewrite subs_loop_skip.
+      - apply subs_loop_ext. intros n Hn. apply filter_In in Hn as [_ Hn]. apply negb_true_iff in Hn.
+        cbv beta. unfold hidden in Hn. rewrite Hn. rewrite !sub_files_group. unfold l'.
+        rewrite (group_filter_hidden (Some n) l). unfold hidden. now rewrite Hn.
+      - intros n Hn. cbv beta. unfold hidden in Hn. now rewrite Hn. }
+    rewrite Hsl.
+    match goal with |- match ?X with _ => _ end = _ => destruct X end; reflexivity.
+  Qed.
+
+  (* "error unpacking subchart": if the chart's own files load and validate, and some visible
+     subchart name does not load -- a packed dependency whose first file is not the archive
+     itself, an archive that cannot be read, a chart in it that does not load --, LoadFiles fails *)
+  Lemma subs_loop_error F l n e :
+    In n l -> F n = inl e -> exists e', subs_loop F l = inl e'.
+  Proof.
+    induction l as [|x l IH]; intros Hin He; [contradiction|]. cbn [subs_loop].
+    destruct Hin as [->|Hin]; [rewrite He; eauto|].
+    destruct (F x) as [e0|[sc|]]; eauto.
+    destruct (IH Hin He) as (e' & ->). eauto.
+  Qed.
+
+  Theorem packed_subchart_errors fuel l n :
+    group (Some n) l <> [] -> hidden n = false -> String.eqb (path_ext n) ".tgz" = true ->
+    (match group (Some n) l with
+     | f :: _ => charts_rest (f_name f) <> n \/
+                 (exists e, load_archive_files maxt maxf (untar (f_data f)) = inl e) \/
+                 (exists afs e, load_archive_files maxt maxf (untar (f_data f)) = inr afs /\ LFILES fuel afs = inl e)
+     | [] => False
+     end) ->
+    exists e, LFILES (S fuel) l = inl e.
+  Proof.
+    intros Hne Hh Hext Hbad. cbn [load_files].
+    destruct (load_meta md_merge None l) as [e|om]; [eauto|].
+    destruct (lloop_split md_merge lock_dec parse_values l (mkLS om None None None [] [] [])) as [H1 _]. rewrite H1.
+    destruct (lloop (with_sub (mkLS om None None None [] [] []) []) (tops l)) as [e|st]; [eauto|].
+    cbn [ls_sub app with_sub ls_meta ls_lock ls_values ls_schema ls_templates ls_files].
+    destruct (ls_meta st) as [m0|]; [|eauto].
+    destruct (validate sanitize is_semver rest_valid m0) as [m|]; [|eauto].
+    match goal with |- exists e, match subs_loop ?F ?names with _ => _ end = _ =>
+      assert (exists e, F n = inl e) as (e & He) end.
+    { cbv beta. unfold hidden in Hh. rewrite Hh, Hext. rewrite sub_files_group.
+      destruct (group (Some n) l) as [|f r]; [contradiction|]. cbn [map f_name f_data].
+      destruct Hbad as [Hn|[(e & He)|(afs & e & Ha & He)]].
+      - apply String.eqb_neq in Hn. rewrite Hn. cbn [negb]. eauto.
+      - destruct (negb (String.eqb (charts_rest (f_name f)) n)); [eauto|]. rewrite He. eauto.
+      - destruct (negb (String.eqb (charts_rest (f_name f)) n)); [eauto|]. rewrite Ha, He. destruct e; eauto. }
+    match goal with |- exists e, match subs_loop ?F ?names with _ => _ end = _ =>
+      destruct (subs_loop_error F names n e) as (e' & ->); eauto end.
+    apply sort_strs_in. apply dedup_in. now apply in_subs_names.
+  Qed.
+End Skipped.
